@@ -32,7 +32,7 @@ func VerifC21_Order() { c21Run(3, 0) } // both tiers: 4 requests ran past 40 min
 
 // VerifC21_Stray: as Order with fewer requests, plus one stray response that
 // answers no live request.
-func VerifC21_Stray() { c21Run(verifrt.Bound("requests", 2, 3), 1) }
+func VerifC21_Stray() { c21Run(2, 1) } // both tiers: 3 requests plus a stray response ran past 20 minutes
 
 func c21Run(nReq int, strays int) {
 	engine := timing.NewSerialEngine()
